@@ -4,7 +4,8 @@ import random
 import calendar
 from props.common import bounded
 
-LEVEL_TEXT = ("Deductive over the civil-calendar model (datetime's constructor and field accessors are uninterpreted functions with inverse "
+LEVEL_TEXT = ("[table: no date function converts through the process time zone; the calendar sweep is repeated in two other time zones.]  "
+              "Deductive over the civil-calendar model (datetime's constructor and field accessors are uninterpreted functions with inverse "
               "axioms = assumed library contract): DATE (year offset below 1900, argument order, #VALUE! on non-numbers), TIME, YEAR..SECOND "
               "(field of parse_date's result, error passthrough), WEEKDAY (three numberings, #NUM! otherwise), DAYS and DATEVALUE (serial of "
               "C13), DATEDIF (d, m, y, ym; #NUM! when start > end), EDATE (month arithmetic in linear integer arithmetic with div/mod 12, day "
